@@ -71,7 +71,7 @@ class ErrorPath(Suite):
         rng = ctx.sub_rng("c07", budget)
         n = 4000 if budget == "quick" else 80000
         for _ in range(n):
-            c = G.seeded(rng, ["E", "E", "Ed", "En", "Ec", "E0", "R", "Q", "O", "Oe", "N", "G", "F", "B", "T"], cancel_p=0.05)
+            c = G.seeded(rng, ["E", "E", "Ed", "En", "Ec", "E0", "R", "Q", "O", "Oe", "N", "G", "F", "B", "T", "Ez"], cancel_p=0.05)
             for _, ev in c["ev"]:
                 if ev["k"] == "err" and ev.get("code") is not None and rng.random() < 0.5:
                     ev["code"] = rng.choice(CODES)
